@@ -259,7 +259,10 @@ func (p *parser) readType() (t Type, err error) {
 			var token string
 			token, err = p.readToken()
 			if err == nil && 0 < len(token) {
-				if t = p.root.GetType(token); t == nil {
+				// Only a type can be meant here. A directive can have the
+				// same name as a type, Root.GetType would return the
+				// directive when the type is not loaded yet.
+				if t = p.root.getNamedType(token); t == nil {
 					t = &Ref{Base: Base{N: token}}
 				}
 			}
@@ -583,6 +586,14 @@ func (p *parser) readDirUse() (du *DirectiveUse, err error) {
 		// readType accepts the type modifiers which makes no sense for a
 		// directive and would hide an undefined name from validation.
 		return nil, parseError(du.line, du.col, "a directive must be a name, not %s", du.Directive.Name())
+	}
+	// The name was read as the name of a type. Directives have names of
+	// their own, a type with the same name is not what is referred to.
+	name := du.Directive.Name()
+	if dir := p.root.getDirective(name); dir != nil {
+		du.Directive = dir
+	} else {
+		du.Directive = &Ref{Base: Base{N: name}}
 	}
 	if p.onDeck == '(' {
 		_, _ = p.readByte() // re-read opening (
